@@ -103,7 +103,7 @@ func (m *c11Mon) onRequest(p *Play, e *h.Ev, kind string, asked []string) []stri
 	p.R().Shuffle(len(order), func(i, j int) { order[i], order[j] = order[j], order[i] })
 	c.FP(kind, order)
 	send := func(id string) bool {
-		gp := t.FindGamePlayerIdx(id)
+		gp := h.GameIdx(t, id)
 		var err error
 		switch kind {
 		case "ready":
@@ -129,7 +129,7 @@ func (m *c11Mon) onRequest(p *Play, e *h.Ev, kind string, asked []string) []stri
 	if timeoutHere && kind == "blinds" {
 		// withhold the big blind's answer (the asked players are then not entries 0..n-1)
 		for i, id := range order {
-			if gp := t.FindGamePlayerIdx(id); gp >= 0 && gs.HasPosition(gp, "bb") {
+			if gp := h.GameIdx(t, id); gp >= 0 && gs.HasPosition(gp, "bb") {
 				order[i], order[len(order)-1] = order[len(order)-1], order[i]
 				c.Feature("timeout:big-blind-withheld")
 			}
